@@ -12,5 +12,7 @@ sed -i "s#/verif/build/target#$ALT/target#" $ALT/harness/.cargo/config.toml
 cp /verif/known_findings.json $ALT/root/
 rsync -a /verif/fixtures $ALT/root/ 2>/dev/null || true
 rm -rf $ALT/root/replays
-( cd $ALT/harness && CARGO_NET_OFFLINE=true cargo build --offline --profile verif --target-dir $ALT/target 2>&1 | grep -E "^error" -A12 || true )
+# a failed build must not fall through to a stale binary of an earlier tree
+rm -f $ALT/target/verif/vh
+( cd $ALT/harness && CARGO_NET_OFFLINE=true cargo build --offline --profile verif --target-dir $ALT/target > $ALT/build.log 2>&1 ) || { grep -E "^error" -A12 $ALT/build.log | head -60; echo "BROKEN-CHECK build against $TREE failed"; exit 2; }
 VH_SOZU_ROOT=$TREE/ VERIF_ROOT=$ALT/root timeout 1500 $ALT/target/verif/vh $ID --tier $TIER "$@"
